@@ -101,6 +101,8 @@ pub fn judge(h: &History, recs: &[StepRec]) -> Result<u32, Failure> {
     let mut net_rx: Option<NetRx> = None;
     // false once the reference model itself may have lost the session (radio fault, a frame whose size verdict is undefined)
     let mut rx_follow = true;
+    // DLSettings / RxDelay of the JoinAccept that established the current session (None for ABP)
+    let mut join_params: Option<(u8, u8)> = None;
     for r in recs {
         if r.outcome.is_panic() {
             break;
@@ -122,10 +124,26 @@ pub fn judge(h: &History, recs: &[StepRec]) -> Result<u32, Failure> {
             }
             pending = None;
             net_rx = None;
+            if let Some(d) = r.deliveries.iter().find_map(|d| match &d.verdict {
+                Verdict::JoinAccept { desc, .. } if matches!(d.slot, Slot::Rx1 | Slot::Rx2) => Some((desc.dl_settings, desc.rx_delay)),
+                _ => None,
+            }) {
+                join_params = Some(d);
+            }
         }
         if rx_follow && net_rx.is_none() && !matches!(r.step, Step::Join(_)) && r.txs.iter().any(|t| !t.join) {
             let s = &r.snap_before;
-            net_rx = Some(NetRx { off: s.rx1_dr_offset, dr2: s.rx2_data_rate, f2: s.rx2_frequency, delay_ms: s.rx1_delay });
+            let mut n = NetRx { off: s.rx1_dr_offset, dr2: s.rx2_data_rate, f2: s.rx2_frequency, delay_ms: s.rx1_delay };
+            // what the JoinAccept unambiguously fixed is the network's, not the device's, to say:
+            // an RX1DROffset the region defines, and the RX delay (0 means 1 s)
+            if let Some((dl, rxd)) = join_params.take() {
+                let off = (dl >> 4) & 0x07;
+                if off <= reg.max_rx1_offset() {
+                    n.off = off;
+                }
+                n.delay_ms = ((rxd & 0x0F).max(1) as u32) * 1000;
+            }
+            net_rx = Some(n);
         }
         // answers carried by this uplink update the network's view before its windows are judged
         if let (true, Some(t)) = (pending.is_some(), r.txs.iter().find(|t| !t.join)) {
